@@ -7,6 +7,11 @@
      - the repaired brace pattern accepts blanks after the left brace of an else line;
      - the repaired VersionParser._expr always evaluates the right operand;
      - the repaired argument splitter has no special case for a quoted single blank.
+   A second flag [eb] selects the reader with the repair of D6 (proposed fix C11-empty-branch;
+   true) or the reader that tests the truth of block / ifBlock (false):
+     - the repaired reader has two more state variables, inBranch (set on every brace line
+       except a bare right brace) and an ifBlock that is None until the else line was seen;
+       a brace line closes the open branch when block is non-empty OR inBranch is set.
    Executable definitions only. *)
 From Eupsv Require Import Base.Base Model.Rx Model.Cond Model.Args Model.Legacy.
 
@@ -169,6 +174,83 @@ Definition finish (st : rstate) : list lbb :=
 Definition read_blocks (fx : bool) (top : str) (ks : list linekind) : res (list lbb) :=
   bind (run_lines fx top ks r_init) (fun st => Ok (finish st)).
 
+(* ---------------------------------------------------------------- the state machine with the repair of D6 *)
+
+(* logical, block, inBranch, ifBlock (None until the else line of the chain was seen),
+   logicalBlocks, self._actions *)
+Record rstate_r := mkQ {
+  q_logical : str;
+  q_block : list action;
+  q_inbranch : bool;
+  q_ifblock : option (list action);
+  q_chain : lbb;
+  q_out : list lbb
+}.
+
+Definition q_init : rstate_r := mkQ s_true [] false None [] [].
+
+(* the body of  if mat:  for a brace line:  if block or inBranch: ...;  inBranch = group 1 or
+   group 2 matched;  then the lines on logical as before *)
+Definition step_brace_r (k : linekind) (st : rstate_r) : rstate_r :=
+  let st1 :=
+    if is_nil (q_block st) && negb (q_inbranch st) then st
+    else
+      match k with
+      | LElse true =>
+          mkQ (q_logical st) [] (q_inbranch st) (Some (q_block st)) (q_chain st) (q_out st)
+      | LElseIf c =>
+          mkQ c [] (q_inbranch st) (q_ifblock st)
+              (q_chain st ++ [LLog (q_logical st); LBlk (q_block st)]) (q_out st)
+      | _ =>
+          let ifb := match q_ifblock st with Some b => b | None => q_block st end in
+          let elb := match q_ifblock st with Some _ => q_block st | None => [] end in
+          let ch := q_chain st ++ [LLog (q_logical st); LBlk ifb; LBlk elb] in
+          match k with
+          | LIf _ => mkQ (q_logical st) [] (q_inbranch st) None [] (q_out st ++ [ch])
+          | _ => mkQ (q_logical st) [] (q_inbranch st) (Some ifb) ch (q_out st)
+          end
+      end in
+  match k with
+  | LIf c => mkQ c (q_block st1) true (q_ifblock st1) (q_chain st1) (q_out st1)
+  | LClose =>
+      if is_nil (q_chain st1) then mkQ s_true (q_block st1) false (q_ifblock st1) (q_chain st1) (q_out st1)
+      else mkQ s_true (q_block st1) false None [] (q_out st1 ++ [q_chain st1])
+  | _ => mkQ (q_logical st1) (q_block st1) true (q_ifblock st1) (q_chain st1) (q_out st1)
+  end.
+
+Definition step_cmd_r (r : cmdres) (st : rstate_r) : res rstate_r :=
+  match r with
+  | CAdd a => Ok (mkQ (q_logical st) (q_block st ++ [a]) (q_inbranch st) (q_ifblock st) (q_chain st) (q_out st))
+  | CSkip => Ok st
+  | CRaise => Err BadTable
+  end.
+
+Definition step_r (fx : bool) (top : str) (k : linekind) (st : rstate_r) : res rstate_r :=
+  match k with
+  | LCmd n a => step_cmd_r (mk_action fx top n a) st
+  | LOther l => step_cmd_r (mk_action_other top l) st
+  | _ => Ok (step_brace_r k st)
+  end.
+
+Fixpoint run_lines_r (fx : bool) (top : str) (ks : list linekind) (st : rstate_r) : res rstate_r :=
+  match ks with
+  | [] => Ok st
+  | k :: r => bind (step_r fx top k st) (run_lines_r fx top r)
+  end.
+
+(* after the loop: unchanged *)
+Definition finish_r (st : rstate_r) : list lbb :=
+  q_out st
+  ++ (if is_nil (q_chain st) then [] else [q_chain st])
+  ++ (if is_nil (q_block st) then [] else [[LLog (q_logical st); LBlk (q_block st); LBlk []]]).
+
+Definition read_blocks_r (fx : bool) (top : str) (ks : list linekind) : res (list lbb) :=
+  bind (run_lines_r fx top ks q_init) (fun st => Ok (finish_r st)).
+
+(* the reader selected by the flag *)
+Definition read_blocks_sel (fx eb : bool) (top : str) (ks : list linekind) : res (list lbb) :=
+  if eb then read_blocks_r fx top ks else read_blocks fx top ks.
+
 (* ---------------------------------------------------------------- Table.actions *)
 
 (* while LBB: logical, ifBlock, elseBlock = LBB[0], LBB[1], LBB[2:] ... *)
@@ -195,9 +277,9 @@ Fixpoint select (fx : bool) (e : cenv) (ls : list lbb) : res (list action) :=
 (* ---------------------------------------------------------------- the whole path *)
 
 (* Table(file, topProduct=top, addDefaultProduct=False) *)
-Definition read_text (fx : bool) (top : str) (text : str) : res (list lbb) :=
-  bind (rewrite (split_lines text)) (fun ls => read_blocks fx top (map (classify fx) ls)).
+Definition read_text (fx eb : bool) (top : str) (text : str) : res (list lbb) :=
+  bind (rewrite (split_lines text)) (fun ls => read_blocks_sel fx eb top (map (classify fx) ls)).
 
 (* Table(...).actions(flavor, types) *)
-Definition table_actions (fx : bool) (top : str) (text : str) (e : cenv) : res (list action) :=
-  bind (read_text fx top text) (select fx e).
+Definition table_actions (fx eb : bool) (top : str) (text : str) (e : cenv) : res (list action) :=
+  bind (read_text fx eb top text) (select fx e).
